@@ -517,6 +517,15 @@ def c19_run(ctx):
                     isinstance(e, vector.Momentum) == (fl == "m") and [float(x) for x in C.stored(e)] == [float(x) for x in rows[flat_i]]
                 if not ok:
                     problems.append(("int-index", f"{fl}:{sig} shape {shape} index {idx}: got {e!r}, element stores {rows[flat_i]}"))
+                # zero-dimensional VIEWS (all axes consumed by integers plus an Ellipsis): still the array class, same record
+                for zdesc, zidx in (("int+ellipsis", idx + (Ellipsis,)), ("ellipsis+int", (Ellipsis,) + idx)):
+                    n += 1
+                    try:
+                        z0 = b[zidx]
+                        if type(z0) is not cls or z0.shape != () or z0.view(numpy.ndarray).tobytes() != b.view(numpy.ndarray)[idx].tobytes():
+                            problems.append((f"zero-dim-view:{zdesc}", f"{fl}:{sig} shape {shape} index {zidx}: {type(z0).__name__} shape {getattr(z0, 'shape', None)}, expected a 0-d {cls.__name__} view of the element"))
+                    except Exception as ex:  # noqa: BLE001
+                        problems.append((f"zero-dim-view-raises:{zdesc}", f"{fl}:{sig} {shape}: {type(ex).__name__}: {str(ex)[:60]}"))
                 for desc, sl in (("slice", (slice(1, None),)), ("step", (slice(None, None, 2),)), ("mask", (numpy.arange(shape[0]) % 2 == 0,)),
                                  ("ellipsis", (Ellipsis, 0) if len(shape) > 1 else (slice(None),)), ("fancy", ([0, shape[0] - 1],)),
                                  ("view", None), ("copy", None), ("transpose", None)):
@@ -565,6 +574,9 @@ def c19_run(ctx):
                 if not isinstance(aa, vector.backends.numpy.VectorNumpy) or isinstance(aa, vector.Momentum) != (fl == "m") or \
                         sig_from_names(aa.dtype.names) != tuple(sig) or [float(aa[nm_].reshape(-1)[0]) for nm_ in aa.dtype.names] != [float(x) for x in rows[0]]:
                     problems.append(("asanyarray", f"asanyarray({fl}:{sig} object) = {aa!r}"))
+                ae = aa[...]
+                if type(ae) is not type(aa) or ae.dtype != aa.dtype:
+                    problems.append(("asanyarray-ellipsis", f"asanyarray({fl}:{sig} object)[...] is {type(ae).__name__}"))
                 pa = numpy.asarray(o)
                 if type(pa) is not numpy.ndarray or [GEN.get(q, q) for q in pa.dtype.names] != C.signames(sig):
                     problems.append(("asarray", f"asarray({fl}:{sig} object) = {type(pa).__name__} {pa.dtype}"))
